@@ -690,6 +690,9 @@ func handleCallExprVectorSelectorNode(expr *parser.Call, mQuery *structs.Metrics
 
 		intVal, err := strconv.Atoi(key)
 		if err == nil {
+			if intVal < 0 {
+				return fmt.Errorf("handleCallExprVectorSelectorNode: replacement key %v refers to a negative capture group", replacementKey)
+			}
 			labelReplacementKey.KeyType = structs.IndexBased
 			labelReplacementKey.IndexBasedVal = intVal
 		} else {
